@@ -422,6 +422,17 @@ func (s *scope) shareInstance(descriptor *Descriptor, key instanceKey, instance 
 	}
 }
 
+// absentOutput is cached under the identity of a result-object field that the
+// constructor left nil.
+type absentOutput struct{}
+
+func absentOutputError(key instanceKey) error {
+	return &ValidationError{
+		ServiceType: key.Type,
+		Cause:       fmt.Errorf("result object field was nil"),
+	}
+}
+
 // identity returns the key under which a descriptor's instance is stored.
 func (d *Descriptor) identity() instanceKey {
 	return instanceKey{Type: d.Type, Key: d.Key, Group: d.Group}
@@ -488,6 +499,9 @@ func (s *scope) resolve(key instanceKey, descriptor *Descriptor) (any, error) {
 	case Singleton:
 		// Singletons are created at build time, no circular check needed
 		if instance, ok := s.rootProvider.getSingleton(key); ok {
+			if _, absent := instance.(absentOutput); absent {
+				return nil, absentOutputError(key)
+			}
 			return instance, nil
 		}
 
@@ -510,6 +524,9 @@ func (s *scope) resolve(key instanceKey, descriptor *Descriptor) (any, error) {
 	case Scoped:
 		// Check for circular dependency only when creating new instance
 		if instance, ok := s.getInstance(key); ok {
+			if _, absent := instance.(absentOutput); absent {
+				return nil, absentOutputError(key)
+			}
 			return instance, nil
 		}
 
@@ -520,6 +537,9 @@ func (s *scope) resolve(key instanceKey, descriptor *Descriptor) (any, error) {
 		defer unlock()
 
 		if instance, ok := s.getInstance(key); ok {
+			if _, absent := instance.(absentOutput); absent {
+				return nil, absentOutputError(key)
+			}
 			return instance, nil
 		}
 
@@ -659,6 +679,7 @@ func (s *scope) createInstance(descriptor *Descriptor) (any, error) {
 		// Find the primary service to return
 		var primaryService any
 		var trackErr error
+		stored := make(map[*Descriptor]bool, len(registrations))
 		for _, reg := range registrations {
 			value := reg.Value
 
@@ -697,9 +718,20 @@ func (s *scope) createInstance(descriptor *Descriptor) (any, error) {
 			}
 
 			key := regDescriptor.identity()
+			stored[regDescriptor] = true
 
 			if err := s.setInstance(regDescriptor, key, value); err != nil {
 				trackErr = err
+			}
+		}
+
+		// A field the constructor left nil has no value, but its registration has
+		// been constructed: a later resolution of that identity reports the missing
+		// value instead of running the constructor again, which would replace the
+		// instances already handed out for the other fields.
+		for _, sibling := range descriptor.siblings {
+			if !stored[sibling] && s.rootProvider.isRegistered(sibling) {
+				s.shareInstance(sibling, sibling.identity(), absentOutput{})
 			}
 		}
 
